@@ -431,6 +431,12 @@ impl Profile {
                         out.push((s(nm.to_string(), &r, &w, 3, vec![]), false));
                     }
                 }
+                // names outside ASCII (multi-byte characters, with and without a separator)
+                for nm in ["syst\u{e8}me \u{e9}t\u{e9}", "\u{7269}\u{7406}"] {
+                    if !used.iter().any(|u| u == nm) {
+                        out.push((s(nm.to_string(), &[], &[], 3, vec![]), false));
+                    }
+                }
             }
             Profile::Ill => {
                 let names = named_before(prefix);
@@ -1308,6 +1314,34 @@ pub fn c19_check(ops: &[Op], l: &crate::hsys::Layout, nmaps: usize) -> (u64, Vec
             .collect();
         if changed {
             cmp("systems nobody depends on registered with the empty name", "plan-depends-on-names", &unnamed, &idm, &mut n, &mut vs);
+        }
+    }
+    // (xi) the same dependency SET spelled differently: reversed, the whole list twice (a,b,a,b), mirrored (a,b,b,a),
+    //      every name three times - the dependency structure is what counts, not how a list spells it
+    {
+        fn map_deps(ops: &[Op], f: &dyn Fn(&[String]) -> Vec<String>) -> Vec<Op> {
+            ops.iter()
+                .map(|o| match o {
+                    Op::Sys(x) => Op::Sys(SysSpec { deps: f(&x.deps), ..x.clone() }),
+                    Op::Batch(b) => Op::Batch(BatchSpec { deps: f(&b.deps), inner: map_deps(&b.inner, f), ..b.clone() }),
+                    Op::Static(st) => Op::Static(StaticSpec { deps: f(&st.deps), ..st.clone() }),
+                    x => x.clone(),
+                })
+                .collect()
+        }
+        fn has_deps(ops: &[Op]) -> bool {
+            ops.iter().any(|o| match o {
+                Op::Sys(x) => !x.deps.is_empty(),
+                Op::Batch(b) => !b.deps.is_empty() || has_deps(&b.inner),
+                Op::Static(st) => !st.deps.is_empty(),
+                _ => false,
+            })
+        }
+        if has_deps(ops) {
+            cmp("dependency lists reversed", "plan-depends-on-dependency-spelling", &map_deps(ops, &|d| d.iter().rev().cloned().collect()), &idm, &mut n, &mut vs);
+            cmp("dependency lists written twice (a, b, a, b)", "plan-depends-on-dependency-spelling", &map_deps(ops, &|d| d.iter().chain(d.iter()).cloned().collect()), &idm, &mut n, &mut vs);
+            cmp("dependency lists mirrored (a, b, b, a)", "plan-depends-on-dependency-spelling", &map_deps(ops, &|d| d.iter().chain(d.iter().rev()).cloned().collect()), &idm, &mut n, &mut vs);
+            cmp("every dependency named three times (a, a, a, b, b, b)", "plan-depends-on-dependency-spelling", &map_deps(ops, &|d| d.iter().flat_map(|x| vec![x.clone(), x.clone(), x.clone()]).collect()), &idm, &mut n, &mut vs);
         }
     }
     // (iii) permutations / duplications of each system's declared lists
